@@ -12,7 +12,11 @@ import (
 	"bufio"
 	"context"
 	"encoding/hex"
+	"encoding/json"
 	"fmt"
+	"os"
+	"os/exec"
+	"strconv"
 	"strings"
 	"sync"
 	"time"
@@ -425,7 +429,130 @@ func (c *Ctx) bothEpisodes() {
 	}
 }
 
+// redis6Episodes: a Redis 6 server sends invalidation pushes in the MIDDLE of a multi-element reply
+// (redis/redis#8935): the array header counts the pushes, the displaced elements follow the array.
+// Replies with 0, 1, 2 and 3 embedded pushes; every embedded push must reach the callback, in order,
+// and the reply must be repaired.
+type redis6Result struct {
+	Line string
+	Got  []string
+	Vals []string
+	Err  string
+}
+
+// redis6Episodes runs every episode in a child process: a reader that loses its place in the reply
+// stream ends in the library's protocol-bug panic, which would take the whole harness down.
+func (c *Ctx) redis6Episodes() {
+	for nPush := 0; nPush <= 3; nPush++ {
+		op := fmt.Sprintf("redis6 embedded-pushes=%d", nPush)
+		out, err := exec.Command(os.Args[0], "-child-redis6", fmt.Sprint(nPush)).Output()
+		var r redis6Result
+		if err != nil || json.Unmarshal(out, &r) != nil {
+			crash := ""
+			if ee, ok := err.(*exec.ExitError); ok {
+				crash = firstLine(string(ee.Stderr))
+			}
+			c.Emit("!"+op, "crashed", true)
+			c.Fail("inval:redis6-embedded-push-missed", op, fmt.Sprintf("a reply with %d embedded invalidation pushes crashed the client: %s", nPush, crash))
+			continue
+		}
+		if r.Err != "" || strings.Join(r.Vals, ",") != "ve1,ve2,ve3" {
+			c.Fail("inval:redis6-embedded-push-corrupted-reply", op, fmt.Sprintf("MGET answered %v (%s), want [ve1 ve2 ve3]", r.Vals, r.Err))
+		}
+		c.Emit("e2e6 "+r.Line, orDash(r.Got), nPush > 0)
+		c.Emit("!e2e6 "+r.Line, orDash(r.Got), false)
+		if len(r.Got) != nPush+1 {
+			c.Fail("inval:redis6-embedded-push-missed", "e2e6 "+r.Line, fmt.Sprintf("the reply carried %d embedded invalidation pushes, the callback log is %v (want every push, then one nil)", nPush, r.Got))
+		}
+		c.Hit(fmt.Sprintf("redis6-embedded:%d", nPush))
+	}
+}
+
+func firstLine(s string) string {
+	if i := strings.IndexByte(s, '\n'); i >= 0 {
+		return s[:i]
+	}
+	return s
+}
+
+func init() {
+	childHooks = append(childHooks, func(args []string) bool {
+		if args[0] != "-child-redis6" || len(args) < 2 {
+			return false
+		}
+		n, _ := strconv.Atoi(args[1])
+		out, _ := json.Marshal(redis6Run(n))
+		os.Stdout.Write(out)
+		return true
+	})
+}
+
+func redis6Run(nPush int) (res redis6Result) {
+	bg := context.Background()
+	{
+		srv := fakeredis.New(fakeredis.Options{Version: "6.0.9"})
+		var optLog invLog
+		a, err := rueidis.NewClient(rueidis.ClientOption{InitAddress: []string{"fake:1"}, DialCtxFn: srv.Dial, ForceSingleClient: true,
+			PipelineMultiplex: -1, DisableRetry: true, OnInvalidations: optLog.add})
+		if err != nil {
+			panic(err)
+		}
+		ctx, cancel := context.WithTimeout(bg, 2*time.Second) // a reader that lost its place must not hang the suite
+		// MGET e1 e2 e3 answered as Redis 6 does when it finds tracked keys expired while building the reply
+		keys := []string{"e1", "e2", "e3"}
+		var frame []byte
+		frame = append(frame, "*3\r\n"...)
+		var nested []string
+		emitted, displaced := 0, 0
+		for i, k := range keys {
+			if i < nPush {
+				frame = append(frame, fakeredis.Encode(3, fakeredis.Push{"invalidate", []any{k}})...)
+				nested = append(nested, pushWord([]pv{sv("invalidate"), av(k)}))
+			}
+		}
+		for i := range keys { // the array holds 3 slots: pushes first took nPush of them
+			if emitted+nPush < 3 {
+				frame = append(frame, fakeredis.Encode(3, "v"+keys[i])...)
+				emitted++
+			} else {
+				displaced++
+			}
+		}
+		for i := emitted; i < 3; i++ { // the displaced elements follow the array
+			frame = append(frame, fakeredis.Encode(3, "v"+keys[i])...)
+		}
+		srv.AddRule(fakeredis.Rule{Match: fakeredis.Cmd("MGET", "e1"), Reply: frame, Times: 1})
+		a.Do(ctx, a.B().Ping().Build())
+		vals, err := a.Do(ctx, a.B().Mget().Key(keys...).Build()).AsStrSlice()
+		res.Vals = vals
+		if err != nil {
+			res.Err = err.Error()
+		}
+		a.Do(ctx, a.B().Ping().Build())
+		srv.Kill(1)
+		var toks []string
+		for _, o := range srv.ConnOuts(1) {
+			switch {
+			case o.IsPush:
+			case o.Reply == "*3" && nPush > 0:
+				toks = append(toks, "r:"+strings.Join(nested, ";"))
+			default:
+				toks = append(toks, "r")
+			}
+		}
+		optLog.waitLen(nPush + 1)
+		time.Sleep(300 * time.Microsecond)
+		got := optLog.snap()
+		line := strings.Join(append(toks, "x"), " ")
+		res.Line, res.Got = line, got
+		cancel()
+		go func() { a.Close(); srv.Close() }()
+	}
+	return res
+}
+
 func (c *Ctx) invalE2E() {
+	c.redis6Episodes()
 	c.lifetimeEpisodes()
 	c.bothEpisodes()
 	ctx := context.Background()
